@@ -239,6 +239,7 @@ void defineArg(Handler &h, Pool &p, const Config &cfg, const ArgDef &a) {
   }
   if (a.format == 1) t->addFormat(cpa::uppercase());
   if (a.format == 2) t->addFormat(cpa::lowercase());
+  for (auto &pf : a.posFormats) t->addFormatPos(pf.first, pf.second == 1 ? cpa::uppercase() : cpa::lowercase());
   for (auto &ct : a.constraints) {
     const std::string &other = cfg.args[ct.second].spec;
     if (ct.first == CT_REQUIRES) t->addConstraint(cpa::requiresArg(other));
@@ -270,6 +271,8 @@ std::string scratchDir() {
 std::string baseName(const std::string &p) { auto s = p.rfind('/'); return s == std::string::npos ? p : p.substr(s + 1); }
 
 }  // namespace
+
+void resetGlobalState() { cpa::Groups::reset(); }
 
 RealResult runReal(const Config &cfg, const RealInput &in) {
   RealResult res;
